@@ -70,9 +70,11 @@ def blob_cls_map(c):
     return {o: ('blob' if o == c['NOid'] - 1 and o > 0 else 'plain') for o in range(c['NOid'])}
 
 
-def _check_blobs(st, hist, cls, T, where):
+def _check_blobs(st, hist, cls, T, where, src):
     """every data-carrying revision of a blob oid has its blob file with the content that goes with the
-    datum TLC printed; -> list of mismatch strings"""
+    datum TLC printed; -> list of mismatch strings.  A revision whose blob file the SOURCE does not hold (blob
+    files versus records in the source are C13's subject, e.g. after a pack of a transaction that stored the
+    blob twice) must not have one in the copy either."""
     from ZODB.POSException import POSKeyError
     out = []
     it = {}
@@ -82,10 +84,19 @@ def _check_blobs(st, hist, cls, T, where):
                 it[(r['oid'], t['tid'])] = r['d']
     for (o, t), d in sorted(it.items()):
         try:
+            src.loadBlob(p64(o), T.real(t))
+            in_source = True
+        except POSKeyError:
+            in_source = False
+        try:
             with open(st.loadBlob(p64(o), T.real(t)), 'rb') as f:
                 got = f.read()
         except POSKeyError:
-            out.append('%s: blob[%d][%d]: no blob file in the copy' % (where, o, t))
+            if in_source:
+                out.append('%s: blob[%d][%d]: no blob file in the copy' % (where, o, t))
+            continue
+        if not in_source:
+            out.append('%s: blob[%d][%d]: blob file in the copy, none in the source' % (where, o, t))
             continue
         if got != blob_bytes(d):
             out.append('%s: blob[%d][%d]: blob bytes differ: spec=%r impl=%r' % (where, o, t, blob_bytes(d)[:40], got[:40]))
@@ -197,7 +208,7 @@ def _copy_and_compare(rp, variant, workdir, rc, mo, hist, cls, blobs, opts):
         if mm:
             return ('copy', mm)
         if blobs:
-            mm = _check_blobs(dest, mo, cls, rd.tids, 'copy')
+            mm = _check_blobs(dest, mo, cls, rd.tids, 'copy', src)
             if mm:
                 return ('copy-blobs', mm)
         if opts.get('ranges'):
@@ -210,7 +221,7 @@ def _copy_and_compare(rp, variant, workdir, rc, mo, hist, cls, blobs, opts):
         if mm:
             return ('copy-reopened', mm)
         if blobs:
-            mm = _check_blobs(dest, mo, cls, rd.tids, 'copy-reopened')
+            mm = _check_blobs(dest, mo, cls, rd.tids, 'copy-reopened', src)
             if mm:
                 return ('copy-reopened-blobs', mm)
         return None
